@@ -640,7 +640,7 @@ theorem DurableAt.flush {P : Params ν κ} {w w' : World ν κ} {fi : FlushIn ν
     have hlog3 : w3.log = w.log := by
       have := hsl.2.2.2.2.2
       simpa [batchAndPersist, freeze] using this
-    have hm := compactFold_mid hre hfi.keysCompact hd.logcat fi.compactions _ _ hfi.once (stage1_mid fi hd hfi) hfold
+    have hm := compactFold_mid hre hfi.keysCompact hd.logcat.whole fi.compactions _ _ hfi.once (stage1_mid fi hd hfi) hfold
     have hwalnil := hwal.2.1
     refine ⟨⟨hwal.1, ?_, ?_, ?_, ?_, ?_, ?_⟩, ?_, hwalnil, ?_⟩
     · simpa [deleteWal, deleteOrphans, persistMeta] using hm.lossy
